@@ -67,6 +67,8 @@ Definition flat (o : obs) : list N :=
   | OScript sc => [2; if sc_sched sc then 1 else 0] ++ sc_name sc ++ [sep] ++ sc_text sc ++ [sep]
                   ++ match sc_restart sc with Some (n, t) => n ++ [sep] ++ t | None => [] end
   end.
+(* failing indices must print as plain numerals *)
+Local Close Scope N_scope.
 """
 
 SCHEMA_KEYS = ["nodes", "procs", "gpus", "cores per task", "tasks per rs", "rs per node",
@@ -95,7 +97,7 @@ def gs(t):
             cur.append('""' if c == '"' else c)
         else:
             flush()
-            parts.append("[%d]" % ord(c))
+            parts.append("[%d%%N]" % ord(c))
     flush()
     if not parts:
         return "[]"
